@@ -603,4 +603,1569 @@ theorem regLoop_modeP (H : Hier) (new : Ty) (snap : Forest) :
       rw [this]
       simp [Forest.mapKids, Forest.roots, h2', Forest.app_assoc, Forest.app]
 
+/-- the item `new: moved` that mode S builds at the end of the dict (absent until the first move) -/
+def tailOf (new : Ty) : Option Forest → Forest
+  | none => .nil
+  | some m => .cons new m .nil
+
+def ext (mv : Option Forest) (S : Forest) : Option Forest :=
+  match S with
+  | .nil => mv
+  | S => some ((mv.getD .nil).app S)
+
+theorem Forest.set_head (c : Ty) (k v r : Forest) : (Forest.cons c k r).set c v = .cons c v r := by
+  simp [Forest.set]
+
+theorem Forest.app_cons_nil (pre : Forest) (c : Ty) (k g : Forest) :
+    (pre.app (.cons c k .nil)).app g = pre.app (.cons c k g) := by
+  rw [Forest.app_assoc]; rfl
+
+/-- **mode S** — `new` is not a key of this dict and no item is a strict supertype of `new`:
+    only the first branch fires; every subtype item is popped and re-attached, in order, under
+    one item `new` that is appended at the end -/
+theorem regLoop_modeS (H : Hier) (new : Ty) (snap : Forest) :
+    ∀ (pre : Forest) (mv : Option Forest) (reg : Bool),
+      (∀ c ∈ snap.roots, H.sub c new = true ∨ (H.sub c new = false ∧ H.sub new c = false)) →
+      new ∉ pre.roots → new ∉ snap.roots →
+      (pre.roots ++ snap.roots ++ (mv.getD .nil).roots).Nodup →
+      regLoop H new snap (pre.app (snap.app (tailOf new mv))) reg =
+        ((pre.app (snap.filterR (fun c => !H.sub c new))).app
+            (tailOf new (ext mv (snap.filterR (fun c => H.sub c new)))),
+         reg || snap.roots.any (fun c => H.sub c new)) := by
+  induction snap with
+  | nil =>
+    intro pre mv reg _ _ _ _
+    simp [regLoop, Forest.filterR, Forest.roots, Forest.app, Forest.app_nil, ext]
+  | cons c kids rest _ ihr =>
+    intro pre mv reg h hnp hns hnd
+    have hc := h c (by simp [Forest.roots])
+    have hrest : ∀ x ∈ rest.roots, H.sub x new = true ∨ (H.sub x new = false ∧ H.sub new x = false) :=
+      fun x hx => h x (by simp [Forest.roots, hx])
+    simp only [Forest.roots, List.mem_cons, not_or] at hns
+    have hnd1 : (pre.roots ++ (c :: rest.roots) ++ (mv.getD .nil).roots).Nodup := by
+      simpa [Forest.roots] using hnd
+    have hcpre : c ∉ pre.roots := by
+      intro hm
+      have := List.nodup_append.1 (List.nodup_append.1 hnd1).1
+      exact this.2.2 c hm c (by simp) rfl
+    have hcrest : c ∉ rest.roots := by
+      have := List.nodup_append.1 (List.nodup_append.1 hnd1).1
+      exact (List.nodup_cons.1 this.2.1).1
+    have hcmv : c ∉ (mv.getD .nil).roots := by
+      intro hm
+      exact (List.nodup_append.1 hnd1).2.2 c (by simp) c hm rfl
+    rw [regLoop_cons]
+    rcases hc with hc | ⟨hc1, hc2⟩
+    · -- first branch: pop `c`, attach it under `new`
+      simp only [hc, if_true]
+      have hget : (pre.app ((Forest.cons c kids rest).app (tailOf new mv))).get? c = some kids := by
+        rw [Forest.get?_app_right _ hcpre]; simp [Forest.app, Forest.get?]
+      have herase : (pre.app ((Forest.cons c kids rest).app (tailOf new mv))).erase c =
+          pre.app (rest.app (tailOf new mv)) := by
+        rw [Forest.erase_app_right _ hcpre]; simp [Forest.app, Forest.erase]
+      rw [hget, herase]
+      have hnew_pr : new ∉ (pre.app rest).roots := by
+        simp [Forest.roots_app, hnp, hns.2]
+      have hstep : (match (pre.app (rest.app (tailOf new mv))).get? new with
+            | some newKids => (pre.app (rest.app (tailOf new mv))).set new (newKids.set c ((some kids).getD .nil))
+            | none => (pre.app (rest.app (tailOf new mv))).set new (.cons c ((some kids).getD .nil) .nil)) =
+          pre.app (rest.app (tailOf new (some ((mv.getD .nil).app (.cons c kids .nil))))) := by
+        rw [← Forest.app_assoc, Forest.get?_app_right _ hnew_pr]
+        cases mv with
+        | none =>
+          simp only [tailOf, Forest.get?, Option.getD]
+          rw [Forest.app_nil, Forest.set_of_not_mem _ hnew_pr]
+          simp [Forest.app, Forest.app_assoc]
+        | some m =>
+          simp only [tailOf, Forest.get?, beq_self_eq_true, if_true, Option.getD]
+          rw [Forest.set_app_right _ _ hnew_pr, Forest.set_head]
+          have : c ∉ m.roots := by simpa using hcmv
+          rw [Forest.set_of_not_mem _ this, Forest.app_assoc]
+      rw [hstep]
+      have hnd2 : (pre.roots ++ rest.roots ++
+          ((some ((mv.getD .nil).app (.cons c kids .nil)) : Option Forest).getD .nil).roots).Nodup := by
+        simp only [Option.getD, Forest.roots_app, Forest.roots]
+        have := hnd1
+        simp only [List.append_assoc, List.cons_append] at this ⊢
+        -- move `c` from the middle to the end
+        have hp : (pre.roots ++ (c :: (rest.roots ++ (mv.getD .nil).roots))).Perm
+            (pre.roots ++ (rest.roots ++ ((mv.getD .nil).roots ++ [c]))) := by
+          apply List.Perm.append_left
+          have : (c :: (rest.roots ++ (mv.getD .nil).roots)).Perm ((rest.roots ++ (mv.getD .nil).roots) ++ [c]) :=
+            (List.perm_append_singleton c _).symm
+          simpa [List.append_assoc] using this
+        exact (hp.nodup_iff).1 this
+      rw [ihr pre _ true hrest hnp hns.2 hnd2]
+      simp only [Forest.filterR, hc, Bool.not_true, Bool.false_eq_true, if_false, if_true, Forest.roots,
+        List.any_cons, Bool.true_or, Bool.or_true]
+      congr 2
+      -- the moved items: `(mv ++ [c]) ++ S` = `mv ++ (c :: S)`
+      cases hS : rest.filterR (fun c => H.sub c new) with
+      | nil => simp [ext, Forest.app_nil, Forest.app_cons_nil]
+      | cons x kx rx => simp [ext, Forest.app_cons_nil]
+    · -- unrelated item: stays where it is
+      simp only [hc1, hc2, Bool.false_eq_true, if_false]
+      have hmove : pre.app ((Forest.cons c kids rest).app (tailOf new mv)) =
+          (pre.app (.cons c kids .nil)).app (rest.app (tailOf new mv)) := by
+        rw [Forest.app_cons_nil]; rfl
+      rw [hmove]
+      have hnp' : new ∉ (pre.app (.cons c kids .nil)).roots := by
+        simp [Forest.roots_app, Forest.roots, hnp]; exact fun e => hns.1 e
+      have hnd2 : ((pre.app (.cons c kids .nil)).roots ++ rest.roots ++ (mv.getD .nil).roots).Nodup := by
+        simpa [Forest.roots_app, Forest.roots, List.append_assoc] using hnd1
+      rw [ihr _ mv reg hrest hnp' hns.2 hnd2]
+      simp [Forest.filterR, hc1, Forest.roots, Forest.app_cons_nil, Forest.app_assoc, Forest.app]
+
+/-- **mode R** — `new` is itself a key of this dict, is its own subclass, and every other key is
+    unrelated to it (re-registration): the item is popped and wrapped, `new: {new: old subtree}`,
+    at the end of the dict -/
+theorem regLoop_modeR (H : Hier) (new : Ty) (pre K post : Forest) (reg : Bool)
+    (hrefl : H.sub new new = true)
+    (hpre : ∀ c ∈ pre.roots, H.sub c new = false ∧ H.sub new c = false)
+    (hpost : ∀ c ∈ post.roots, H.sub c new = false ∧ H.sub new c = false)
+    (hnp : new ∉ pre.roots) (hnq : new ∉ post.roots) :
+    regLoop H new (pre.app (.cons new K post)) (pre.app (.cons new K post)) reg =
+      ((pre.app post).app (.cons new (.cons new K .nil) .nil), true) := by
+  rw [regLoop_skip_prefix H new pre _ _ reg hpre, regLoop_cons]
+  simp only [hrefl, if_true]
+  have hget : (pre.app (Forest.cons new K post)).get? new = some K := by
+    rw [Forest.get?_app_right _ hnp]; simp [Forest.get?]
+  have herase : (pre.app (Forest.cons new K post)).erase new = pre.app post := by
+    rw [Forest.erase_app_right _ hnp]; simp [Forest.erase]
+  have hnone : (pre.app post).get? new = none :=
+    Forest.get?_none_of_not_mem (by simp [Forest.roots_app, hnp, hnq])
+  rw [hget, herase, hnone]
+  simp only [Option.getD]
+  rw [Forest.set_of_not_mem _ (by simp [Forest.roots_app, hnp, hnq])]
+  exact regLoop_skip H new post _ true hpost
+
+/-! #### the registry's structural invariant: sibling keys distinct and pairwise unrelated -/
+
+def Unrel (H : Hier) (a b : Ty) : Prop :=
+  H.sub a b = false ∧ H.sub b a = false
+
+theorem Unrel.symm {H : Hier} {a b : Ty} (h : Unrel H a b) : Unrel H b a := ⟨h.2, h.1⟩
+
+/-- at every level of the tree the keys are distinct and no key is a subclass of a sibling -/
+def GoodF (H : Hier) : Forest → Prop
+  | .nil => True
+  | .cons c kids rest =>
+    c ∉ rest.roots ∧ (∀ x ∈ rest.roots, Unrel H c x) ∧ GoodF H kids ∧ GoodF H rest
+
+def Forest.size : Forest → Nat
+  | .nil => 0
+  | .cons _ k r => 1 + size k + size r
+
+theorem GoodF.nodup {H : Hier} {f : Forest} (h : GoodF H f) : f.roots.Nodup := by
+  induction f with
+  | nil => simp [Forest.roots]
+  | cons c k r _ ih => exact List.nodup_cons.2 ⟨h.1, ih h.2.2.2⟩
+
+theorem GoodF.unrel {H : Hier} {f : Forest} (h : GoodF H f) {a b : Ty} (ha : a ∈ f.roots)
+    (hb : b ∈ f.roots) (hab : a ≠ b) : Unrel H a b := by
+  induction f with
+  | nil => simp [Forest.roots] at ha
+  | cons c k r _ ih =>
+    simp only [Forest.roots, List.mem_cons] at ha hb
+    rcases ha with ha | ha <;> rcases hb with hb | hb
+    · exact absurd (ha.trans hb.symm) hab
+    · subst ha; exact h.2.1 b hb
+    · subst hb; exact (h.2.1 a ha).symm
+    · exact ih h.2.2.2 ha hb
+
+theorem GoodF.app {H : Hier} {a b : Forest} (ha : GoodF H a) (hb : GoodF H b)
+    (hab : ∀ x ∈ a.roots, ∀ y ∈ b.roots, x ≠ y ∧ Unrel H x y) : GoodF H (a.app b) := by
+  induction a with
+  | nil => exact hb
+  | cons c k r _ ih =>
+    have hr := ih ha.2.2.2 (fun x hx y hy => hab x (by simp [Forest.roots, hx]) y hy)
+    refine ⟨?_, ?_, ha.2.2.1, hr⟩
+    · rw [Forest.roots_app]
+      intro hm
+      rcases List.mem_append.1 hm with hm | hm
+      · exact ha.1 hm
+      · exact (hab c (by simp [Forest.roots]) c hm).1 rfl
+    · intro x hx
+      rw [Forest.roots_app] at hx
+      rcases List.mem_append.1 hx with hx | hx
+      · exact ha.2.1 x hx
+      · exact (hab c (by simp [Forest.roots]) x hx).2
+
+theorem GoodF.of_app {H : Hier} {a b : Forest} (h : GoodF H (a.app b)) :
+    GoodF H a ∧ GoodF H b ∧ ∀ x ∈ a.roots, ∀ y ∈ b.roots, x ≠ y ∧ Unrel H x y := by
+  induction a with
+  | nil => exact ⟨trivial, h, fun x hx => by simp [Forest.roots] at hx⟩
+  | cons c k r _ ih =>
+    obtain ⟨h1, h2, h3, h4⟩ := h
+    obtain ⟨i1, i2, i3⟩ := ih h4
+    rw [Forest.roots_app] at h1 h2
+    refine ⟨⟨fun hm => h1 (List.mem_append_left _ hm), fun x hx => h2 x (List.mem_append_left _ hx),
+      h3, i1⟩, i2, ?_⟩
+    intro x hx y hy
+    simp only [Forest.roots, List.mem_cons] at hx
+    rcases hx with hx | hx
+    · subst hx
+      exact ⟨fun e => h1 (List.mem_append_right _ (e ▸ hy)), h2 y (List.mem_append_right _ hy)⟩
+    · exact i3 x hx y hy
+
+theorem GoodF.filterR {H : Hier} (p : Ty → Bool) {f : Forest} (h : GoodF H f) : GoodF H (f.filterR p) := by
+  induction f with
+  | nil => trivial
+  | cons c k r _ ih =>
+    obtain ⟨h1, h2, h3, h4⟩ := h
+    by_cases hp : p c = true
+    · simp only [Forest.filterR, hp, if_true]
+      refine ⟨?_, ?_, h3, ih h4⟩
+      · rw [Forest.roots_filterR]; exact fun hm => h1 (List.mem_filter.1 hm).1
+      · intro x hx; rw [Forest.roots_filterR] at hx; exact h2 x (List.mem_filter.1 hx).1
+    · simp only [Forest.filterR, hp]; exact ih h4
+
+theorem GoodF.mapKids {H : Hier} (g : Ty → Forest → Forest) {f : Forest} (h : GoodF H f)
+    (hg : ∀ c k, k.size < f.size → GoodF H k → GoodF H (g c k)) : GoodF H (f.mapKids g) := by
+  induction f with
+  | nil => trivial
+  | cons c k r _ ih =>
+    obtain ⟨h1, h2, h3, h4⟩ := h
+    refine ⟨by rw [Forest.roots_mapKids]; exact h1, by rw [Forest.roots_mapKids]; exact h2,
+      hg c k (by simp [Forest.size]; omega) h3, ih h4 ?_⟩
+    intro c' k' hs hk'
+    exact hg c' k' (by simp [Forest.size]; omega) hk'
+
+theorem GoodF.get? {H : Hier} {f k : Forest} {c : Ty} (h : GoodF H f) (hg : f.get? c = some k) :
+    GoodF H k := by
+  induction f with
+  | nil => simp [Forest.get?] at hg
+  | cons c' k' r _ ih =>
+    by_cases hc : c' = c
+    · subst hc; simp [Forest.get?] at hg; subst hg; exact h.2.2.1
+    · simp [Forest.get?, hc] at hg; exact ih h.2.2.2 hg
+
+theorem Forest.size_get? {f k : Forest} {c : Ty} (hg : f.get? c = some k) : k.size < f.size := by
+  induction f with
+  | nil => simp [Forest.get?] at hg
+  | cons c' k' r _ ih =>
+    by_cases hc : c' = c
+    · subst hc; simp [Forest.get?] at hg; subst hg; simp [Forest.size]; omega
+    · simp [Forest.get?, hc] at hg; have := ih hg; simp [Forest.size]; omega
+
+/-- split a dict at a key -/
+theorem Forest.split_at {f : Forest} {c : Ty} (h : c ∈ f.roots) :
+    ∃ pre K post : Forest, f = pre.app (Forest.cons c K post) ∧ c ∉ pre.roots := by
+  induction f with
+  | nil => simp [Forest.roots] at h
+  | cons c' k' r _ ih =>
+    by_cases hc : c' = c
+    · subst hc; exact ⟨Forest.nil, k', r, rfl, by simp [Forest.roots]⟩
+    · simp only [Forest.roots, List.mem_cons] at h
+      rcases h with h | h
+      · exact absurd h.symm hc
+      · obtain ⟨pre, K, post, he, hn⟩ := ih h
+        refine ⟨Forest.cons c' k' pre, K, post, by simp [Forest.app, he], ?_⟩
+        simp [Forest.roots, hn]; exact fun e => hc e.symm
+
+theorem Forest.mem_nodes_filterR (p : Ty → Bool) (f : Forest) (x : Ty) :
+    x ∈ f.nodes ↔ x ∈ (f.filterR p).nodes ∨ x ∈ (f.filterR (fun c => !p c)).nodes := by
+  induction f with
+  | nil => simp [Forest.filterR, Forest.nodes]
+  | cons c k r _ ih =>
+    by_cases hp : p c = true
+    · simp only [Forest.filterR, hp, if_true, Bool.not_true, Bool.false_eq_true, if_false,
+        Forest.nodes, List.mem_cons, List.mem_append, ih]
+      constructor
+      · rintro (h | h | h | h) <;> simp [h]
+      · rintro ((h | h | h) | h) <;> simp [h]
+    · have hp' : p c = false := by simpa using hp
+      simp only [Forest.filterR, hp', Bool.false_eq_true, if_false, Bool.not_false, if_true,
+        Forest.nodes, List.mem_cons, List.mem_append, ih]
+      constructor
+      · rintro (h | h | h | h) <;> simp [h]
+      · rintro (h | h | h | h) <;> simp [h]
+
+theorem Forest.mem_nodes_mapKids {H : Hier} (g : Ty → Forest → Forest) (new : Ty) (q : Ty → Prop)
+    (f : Forest) (hf : GoodF H f)
+    (hg : ∀ c k, k.size < f.size → GoodF H k →
+      ∀ x, x ∈ (g c k).nodes ↔ (x = new ∧ q c) ∨ x ∈ k.nodes) (x : Ty) :
+    x ∈ (f.mapKids g).nodes ↔ x ∈ f.nodes ∨ (x = new ∧ ∃ c ∈ f.roots, q c) := by
+  induction f with
+  | nil => simp [Forest.mapKids, Forest.nodes, Forest.roots]
+  | cons c k r _ ih =>
+    have ih' := ih hf.2.2.2 (fun c' k' hs => hg c' k' (by simp [Forest.size]; omega))
+    have hk := hg c k (by simp [Forest.size]; omega) hf.2.2.1 x
+    simp only [Forest.mapKids, Forest.nodes, List.mem_cons, List.mem_append, ih', hk, Forest.roots,
+      exists_eq_or_imp]
+    constructor
+    · rintro (h | (h | h) | h | h)
+      · simp [h]
+      · simp [h]
+      · simp [h]
+      · simp [h]
+      · right; exact ⟨h.1, Or.inr h.2⟩
+    · rintro ((h | h | h) | ⟨h1, h2 | h2⟩)
+      · simp [h]
+      · simp [h]
+      · simp [h]
+      · right; left; left; exact ⟨h1, h2⟩
+      · right; right; right; exact ⟨h1, h2⟩
+
+theorem ext_none_of_ne_nil {S : Forest} (h : S ≠ .nil) : ext none S = some S := by
+  cases S with
+  | nil => exact absurd rfl h
+  | cons c k r => simp [ext, Forest.app]
+
+/-- **`_register_fuzzy_type` on a well-formed tree**: the result is well-formed again, and it
+    contains exactly the types it contained before plus the new one (nothing is lost, nothing
+    else appears) -/
+theorem regFuzzy_good (H : Hier)
+    (hT : ∀ a b c, H.sub a b = true → H.sub b c = true → H.sub a c = true) (new : Ty) :
+    ∀ (n : Nat) (f : Forest), f.size = n → GoodF H f →
+      GoodF H (regFuzzy H new f) ∧ ∀ x, x ∈ (regFuzzy H new f).nodes ↔ x = new ∨ x ∈ f.nodes := by
+  intro n
+  induction n using Nat.strongRecOn with
+  | _ n IH =>
+  intro f hsz hf
+  unfold regFuzzy
+  by_cases hmem : new ∈ f.roots
+  · -- `new` is already a key of this dict
+    obtain ⟨pre, K, post, he, hnp⟩ := Forest.split_at hmem
+    subst he
+    obtain ⟨gpre, gmid, gcross⟩ := hf.of_app
+    obtain ⟨hnq, hpostU, gK, gpost⟩ := gmid
+    have hpre : ∀ c ∈ pre.roots, H.sub c new = false ∧ H.sub new c = false :=
+      fun c hc => (gcross c hc new (by simp [Forest.roots])).2
+    have hpost : ∀ c ∈ post.roots, H.sub c new = false ∧ H.sub new c = false :=
+      fun c hc => (hpostU c hc).symm
+    by_cases hrefl : H.sub new new = true
+    · rw [regLoop_modeR H new pre K post false hrefl hpre hpost hnp hnq]
+      simp only [regFinish, if_true]
+      constructor
+      · apply GoodF.app
+        · exact gpre.app gpost (fun x hx y hy =>
+            gcross x hx y (by simp [Forest.roots, hy]))
+        · exact ⟨by simp [Forest.roots], by simp [Forest.roots],
+            ⟨by simp [Forest.roots], by simp [Forest.roots], gK, trivial⟩, trivial⟩
+        · intro x hx y hy
+          simp only [Forest.roots, List.mem_singleton] at hy
+          subst hy
+          rw [Forest.roots_app] at hx
+          rcases List.mem_append.1 hx with hx | hx
+          · exact ⟨fun e => hnp (e ▸ hx), hpre x hx⟩
+          · exact ⟨fun e => hnq (e ▸ hx), hpost x hx⟩
+      · intro x
+        simp only [Forest.nodes_app, Forest.nodes, List.mem_append, List.mem_cons, List.append_nil,
+          List.not_mem_nil, or_false]
+        constructor
+        · rintro ((h | h) | h | h | h) <;> simp [h]
+        · rintro (h | h | h | h | h) <;> simp [h]
+    · have hrefl' : H.sub new new = false := by simpa using hrefl
+      have hall : ∀ c ∈ (pre.app (Forest.cons new K post)).roots,
+          H.sub c new = false ∧ H.sub new c = false := by
+        intro c hc
+        rw [Forest.roots_app] at hc
+        rcases List.mem_append.1 hc with hc | hc
+        · exact hpre c hc
+        · simp only [Forest.roots, List.mem_cons] at hc
+          rcases hc with hc | hc
+          · subst hc; exact ⟨hrefl', hrefl'⟩
+          · exact hpost c hc
+      rw [regLoop_skip H new _ _ false hall]
+      have hsome : ((pre.app (Forest.cons new K post)).get? new).isSome = true :=
+        (Forest.get?_isSome_iff _ _).2 hmem
+      simp only [regFinish, Bool.false_eq_true, if_false, hsome, if_true]
+      refine ⟨hf, fun x => ⟨Or.inr, fun h => ?_⟩⟩
+      rcases h with h | h
+      · subst h; exact Forest.roots_subset_nodes hmem
+      · exact h
+  · by_cases hsub : ∃ s ∈ f.roots, H.sub s new = true
+    · -- mode S
+      obtain ⟨s0, hs0, hs0n⟩ := hsub
+      have hside : ∀ c ∈ f.roots, H.sub c new = true ∨ (H.sub c new = false ∧ H.sub new c = false) := by
+        intro c hc
+        by_cases h1 : H.sub c new = true
+        · exact Or.inl h1
+        · right
+          refine ⟨by simpa using h1, ?_⟩
+          by_cases h2 : H.sub new c = true
+          · have hsc : H.sub s0 c = true := hT _ _ _ hs0n h2
+            have hne : s0 ≠ c := fun e => h1 (e ▸ hs0n)
+            have := (hf.unrel hs0 hc hne).1
+            rw [hsc] at this; exact absurd this (by simp)
+          · simpa using h2
+      have hnd : (Forest.nil.roots ++ f.roots ++ ((none : Option Forest).getD .nil).roots).Nodup := by
+        simpa [Forest.roots] using hf.nodup
+      have := regLoop_modeS H new f .nil none false hside (by simp [Forest.roots]) hmem hnd
+      simp only [Forest.app, tailOf, Forest.app_nil] at this
+      rw [this]
+      have hany : (f.roots.any fun c => H.sub c new) = true :=
+        List.any_eq_true.2 ⟨s0, hs0, hs0n⟩
+      have hne : f.filterR (fun c => H.sub c new) ≠ .nil := by
+        intro e
+        have : s0 ∈ (f.filterR (fun c => H.sub c new)).roots := by
+          rw [Forest.roots_filterR]; exact List.mem_filter.2 ⟨hs0, hs0n⟩
+        rw [e] at this; simp [Forest.roots] at this
+      simp only [regFinish, hany, Bool.false_or, if_true, ext_none_of_ne_nil hne, tailOf]
+      constructor
+      · apply GoodF.app (hf.filterR _)
+        · exact ⟨by simp [Forest.roots], by simp [Forest.roots], hf.filterR _, trivial⟩
+        · intro x hx y hy
+          simp only [Forest.roots, List.mem_singleton] at hy
+          subst hy
+          rw [Forest.roots_filterR] at hx
+          obtain ⟨hx1, hx2⟩ := List.mem_filter.1 hx
+          refine ⟨fun e => hmem (e ▸ hx1), ?_⟩
+          rcases hside x hx1 with h | h
+          · simp [h] at hx2
+          · exact h
+      · intro x
+        rw [Forest.mem_nodes_filterR (fun c => H.sub c new) f x]
+        simp only [Forest.nodes_app, Forest.nodes, List.mem_append, List.mem_cons, List.append_nil]
+        constructor
+        · rintro (h | h | h) <;> simp [h]
+        · rintro (h | h | h) <;> simp [h]
+    · -- mode P
+      have hno : ∀ c ∈ f.roots, H.sub c new = false := by
+        intro c hc
+        by_cases h : H.sub c new = true
+        · exact absurd ⟨c, hc, h⟩ hsub
+        · simpa using h
+      have hnd : (Forest.nil.roots ++ f.roots).Nodup := by simpa [Forest.roots] using hf.nodup
+      have := regLoop_modeP H new f .nil false hno hnd
+      simp only [Forest.app] at this
+      rw [this]
+      have gmap : GoodF H (f.mapKids fun c kids => if H.sub new c then regFuzzy H new kids else kids) := by
+        apply hf.mapKids
+        intro c k hs hk
+        by_cases h : H.sub new c = true
+        · simp only [h, if_true]; exact (IH k.size (by omega) k rfl hk).1
+        · simp only [h]; exact hk
+      have nmap := Forest.mem_nodes_mapKids (H := H)
+        (fun c kids => if H.sub new c then regFuzzy H new kids else kids) new
+        (fun c => H.sub new c = true) f hf (by
+          intro c k hs hk x
+          by_cases h : H.sub new c = true
+          · simp only [h, if_true, and_true]; exact (IH k.size (by omega) k rfl hk).2 x
+          · simp only [h]; simp)
+      by_cases hany : (f.roots.any fun c => H.sub new c) = true
+      · simp only [regFinish, hany, Bool.false_or, if_true]
+        refine ⟨gmap, fun x => ?_⟩
+        rw [nmap x]
+        obtain ⟨p, hp, hpn⟩ := List.any_eq_true.1 hany
+        constructor
+        · rintro (h | h)
+          · exact Or.inr h
+          · exact Or.inl h.1
+        · rintro (h | h)
+          · exact Or.inr ⟨h, p, hp, hpn⟩
+          · exact Or.inl h
+      · have hnone : ((f.mapKids fun c kids => if H.sub new c then regFuzzy H new kids else kids).get? new).isSome
+            = false := by
+          cases hg : ((f.mapKids fun c kids => if H.sub new c then regFuzzy H new kids else kids).get? new).isSome
+          · rfl
+          · exact absurd (by rw [← Forest.roots_mapKids]; exact (Forest.get?_isSome_iff _ _).1 hg) hmem
+        simp only [regFinish, hany, Bool.false_or, Bool.false_eq_true, if_false, hnone]
+        have hnr : new ∉ (f.mapKids fun c kids => if H.sub new c then regFuzzy H new kids else kids).roots := by
+          rw [Forest.roots_mapKids]; exact hmem
+        rw [Forest.set_of_not_mem _ hnr]
+        constructor
+        · apply GoodF.app gmap
+          · exact ⟨by simp [Forest.roots], by simp [Forest.roots], trivial, trivial⟩
+          · intro x hx y hy
+            simp only [Forest.roots, List.mem_singleton] at hy
+            subst hy
+            rw [Forest.roots_mapKids] at hx
+            refine ⟨fun e => hmem (e ▸ hx), hno x hx, ?_⟩
+            by_cases h : H.sub y x = true
+            · exact absurd (List.any_eq_true.2 ⟨x, hx, h⟩) hany
+            · simpa using h
+        · intro x
+          simp only [Forest.nodes_app, Forest.nodes, List.mem_append, List.mem_cons, List.append_nil,
+            List.not_mem_nil, or_false, nmap x]
+          constructor
+          · rintro ((h | h) | h)
+            · exact Or.inr h
+            · exact Or.inl h.1
+            · exact Or.inl h
+          · rintro (h | h)
+            · exact Or.inr h
+            · exact Or.inl (Or.inl h)
+
+/-! ### E. `_get_matching_types` / `_get_closest_type` -/
+
+/-- under the tree invariant every node below a key is a subclass of the key -/
+theorem TreeInv.nodes_sub {H : Hier}
+    (hT : ∀ a b c, H.sub a b = true → H.sub b c = true → H.sub a c = true) (p : Ty) :
+    ∀ f : Forest, TreeInv H f → (∀ r ∈ f.roots, H.sub r p = true) → ∀ x ∈ f.nodes, H.sub x p = true := by
+  intro f
+  induction f with
+  | nil => intro _ _ x hx; simp [Forest.nodes] at hx
+  | cons c k r ihk ihr =>
+    intro hf hr x hx
+    obtain ⟨h1, h2, h3⟩ := hf
+    have hc : H.sub c p = true := hr c (by simp [Forest.roots])
+    simp only [Forest.nodes, List.mem_cons, List.mem_append] at hx
+    rcases hx with hx | hx | hx
+    · subst hx; exact hc
+    · exact ihk h2 (fun r' hr' => hT _ _ _ (h1 r' hr') hc) x hx
+    · exact ihr h3 (fun r' hr' => hr r' (by simp [Forest.roots, hr'])) x hx
+
+theorem TreeInv.kids_sub {H : Hier}
+    (hT : ∀ a b c, H.sub a b = true → H.sub b c = true → H.sub a c = true) {c : Ty} {k r : Forest}
+    (h : TreeInv H (.cons c k r)) : ∀ x ∈ k.nodes, H.sub x c = true :=
+  TreeInv.nodes_sub hT c k h.2.1 h.1
+
+theorem matching_sound (H : Hier) (t : Ty) (f : Forest) :
+    ∀ x ∈ matching H t f, x ∈ f.nodes ∧ H.inst t x = true := by
+  induction f with
+  | nil => intro x hx; simp [matching] at hx
+  | cons c k r ihk ihr =>
+    intro x hx
+    unfold matching at hx
+    by_cases hi : H.inst t c = true
+    · simp only [hi, if_true, List.mem_append] at hx
+      rcases hx with hx | hx
+      · cases hm : matching H t k with
+        | nil => rw [hm] at hx; simp at hx; subst hx; simp [Forest.nodes, hi]
+        | cons a l =>
+          rw [hm] at hx
+          have := ihk x (by rw [hm]; exact hx)
+          exact ⟨by simp [Forest.nodes, this.1], this.2⟩
+      · have := ihr x hx
+        exact ⟨by simp [Forest.nodes, this.1], this.2⟩
+    · simp only [hi] at hx
+      have := ihr x hx
+      exact ⟨by simp [Forest.nodes, this.1], this.2⟩
+
+/-- every node the object is an instance of is represented among the deepest matches by itself
+    or by a subclass of it -/
+theorem matching_complete (H : Hier) (hH : HierFacts H) (t : Ty) (f : Forest) :
+    TreeInv H f → ∀ d ∈ f.nodes, H.inst t d = true →
+      ∃ e ∈ matching H t f, e = d ∨ H.sub e d = true := by
+  induction f with
+  | nil => intro _ d hd; simp [Forest.nodes] at hd
+  | cons c k r ihk ihr =>
+    intro hf d hd hi
+    have hks := hf.kids_sub hH.sub_trans
+    obtain ⟨h1, h2, h3⟩ := hf
+    simp only [Forest.nodes, List.mem_cons, List.mem_append] at hd
+    unfold matching
+    rcases hd with hd | hd | hd
+    · subst hd
+      simp only [hi, if_true]
+      cases hm : matching H t k with
+      | nil => exact ⟨d, by simp, Or.inl rfl⟩
+      | cons a l =>
+        have ha := matching_sound H t k a (by rw [hm]; simp)
+        exact ⟨a, by simp, Or.inr (hks a ha.1)⟩
+    · have hic : H.inst t c = true := hH.inst_sub t d c hi (hks d hd)
+      simp only [hic, if_true]
+      obtain ⟨e, he, hed⟩ := ihk h2 d hd hi
+      cases hm : matching H t k with
+      | nil => rw [hm] at he; simp at he
+      | cons a l => exact ⟨e, by rw [hm] at he; simp only [List.mem_append]; exact Or.inl he, hed⟩
+    · obtain ⟨e, he, hed⟩ := ihr h3 d hd hi
+      by_cases hic : H.inst t c = true
+      · simp only [hic, if_true]; exact ⟨e, List.mem_append_right _ he, hed⟩
+      · simp only [hic]; exact ⟨e, he, hed⟩
+
+theorem mem_dropSupers (H : Hier) (l : List Ty) (x : Ty) :
+    x ∈ dropSupers H l ↔ x ∈ l ∧ ∀ o ∈ l, o ≠ x → H.sub o x = false := by
+  unfold dropSupers
+  simp only [List.mem_filter, Bool.not_eq_true', List.any_eq_false, Bool.and_eq_true, bne_iff_ne, ne_eq,
+    not_and, Bool.not_eq_true]
+
+theorem pickMinAux_spec (H : Hier) (t : Ty) (l : List Ty) :
+    ∀ best, (pickMinAux H t best l = best ∨ pickMinAux H t best l ∈ l) ∧
+      key H t (pickMinAux H t best l) ≤ key H t best ∧
+      ∀ x ∈ l, key H t (pickMinAux H t best l) ≤ key H t x := by
+  induction l with
+  | nil => intro best; simp [pickMinAux]
+  | cons a l ih =>
+    intro best
+    unfold pickMinAux
+    by_cases h : key H t a < key H t best
+    · simp only [h, if_true]
+      obtain ⟨i1, i2, i3⟩ := ih a
+      refine ⟨Or.inr ?_, by omega, ?_⟩
+      · rcases i1 with i1 | i1
+        · rw [i1]; simp
+        · simp [i1]
+      · intro x hx
+        simp only [List.mem_cons] at hx
+        rcases hx with hx | hx
+        · subst hx; exact i2
+        · exact i3 x hx
+    · simp only [h, if_false]
+      obtain ⟨i1, i2, i3⟩ := ih best
+      refine ⟨?_, i2, ?_⟩
+      · rcases i1 with i1 | i1
+        · exact Or.inl i1
+        · exact Or.inr (by simp [i1])
+      · intro x hx
+        simp only [List.mem_cons] at hx
+        rcases hx with hx | hx
+        · subst hx; omega
+        · exact i3 x hx
+
+theorem pickMin_some {H : Hier} {t : Ty} {l : List Ty} {c : Ty} (h : pickMin H t l = some c) :
+    c ∈ l ∧ ∀ x ∈ l, key H t c ≤ key H t x := by
+  cases l with
+  | nil => simp [pickMin] at h
+  | cons a l =>
+    simp only [pickMin, Option.some.injEq] at h
+    subst h
+    obtain ⟨i1, i2, i3⟩ := pickMinAux_spec H t l a
+    refine ⟨?_, ?_⟩
+    · rcases i1 with i1 | i1
+      · rw [i1]; simp
+      · simp [i1]
+    · intro x hx
+      simp only [List.mem_cons] at hx
+      rcases hx with hx | hx
+      · subst hx; exact i2
+      · exact i3 x hx
+
+theorem pickMin_none {H : Hier} {t : Ty} {l : List Ty} (h : pickMin H t l = none) : l = [] := by
+  cases l with
+  | nil => rfl
+  | cons a l => simp [pickMin] at h
+
+theorem idxOf_cons_ne' {x a : Ty} (l : List Ty) (h : x ≠ a) : (x :: l).idxOf a = l.idxOf a + 1 := by
+  have : (x == a) = false := by simpa using h
+  rw [List.idxOf_cons, this]; rfl
+
+theorem find?_first {l : List Ty} {p : Ty → Bool} {n : Ty} (h : l.find? p = some n) :
+    n ∈ l ∧ p n = true ∧ ∀ c ∈ l, p c = true → l.idxOf n ≤ l.idxOf c := by
+  induction l with
+  | nil => simp at h
+  | cons a l ih =>
+    by_cases ha : p a = true
+    · simp [List.find?, ha] at h
+      subst h
+      refine ⟨by simp, ha, fun c _ _ => by simp [List.idxOf_cons_self]⟩
+    · have ha' : p a = false := by simpa using ha
+      simp only [List.find?, ha'] at h
+      obtain ⟨i1, i2, i3⟩ := ih h
+      have hna : a ≠ n := fun e => ha (e ▸ i2)
+      refine ⟨by simp [i1], i2, ?_⟩
+      intro c hc hpc
+      simp only [List.mem_cons] at hc
+      have hnc : a ≠ c := fun e => ha (e ▸ hpc)
+      rcases hc with hc | hc
+      · exact absurd hc.symm hnc
+      · rw [idxOf_cons_ne' _ hna, idxOf_cons_ne' _ hnc]
+        exact Nat.succ_le_succ (i3 c hc hpc)
+
+theorem idxOf_inj {l : List Ty} {a b : Ty} (ha : a ∈ l) (hb : b ∈ l) (h : l.idxOf a = l.idxOf b) :
+    a = b := by
+  induction l with
+  | nil => simp at ha
+  | cons x l ih =>
+    by_cases hxa : x = a
+    · by_cases hxb : x = b
+      · exact hxa.symm.trans hxb
+      · subst hxa
+        rw [List.idxOf_cons_self, idxOf_cons_ne' _ hxb] at h
+        omega
+    · by_cases hxb : x = b
+      · subst hxb
+        rw [List.idxOf_cons_self, idxOf_cons_ne' _ hxa] at h
+        omega
+      · rw [idxOf_cons_ne' _ hxa, idxOf_cons_ne' _ hxb] at h
+        simp only [List.mem_cons] at ha hb
+        exact ih (ha.resolve_left (fun e => hxa e.symm)) (hb.resolve_left (fun e => hxb e.symm))
+          (by omega)
+
+/-- **the deepest matches without their superclasses are exactly the minimal applicable types** -/
+theorem dropSupers_matching_iff (H : Hier) (hH : HierFacts H) (t : Ty) (f : Forest) (cover : List Ty)
+    (hf : TreeInv H f) (hc : ∀ x, x ∈ cover ↔ x ∈ f.nodes) (c : Ty) :
+    c ∈ dropSupers H (matching H t f) ↔ c ∈ minimal H (applicable H cover t) := by
+  have happ : ∀ x, x ∈ applicable H cover t ↔ x ∈ f.nodes ∧ H.inst t x = true := by
+    intro x; simp [applicable, hc x]
+  have hmin : ∀ x, x ∈ minimal H (applicable H cover t) ↔
+      x ∈ applicable H cover t ∧ ∀ d ∈ applicable H cover t, d ≠ x → H.sub d x = false := by
+    intro x
+    simp only [minimal, strictlyBelow, List.mem_filter, Bool.not_eq_true', List.any_eq_false,
+      Bool.and_eq_true, bne_iff_ne, ne_eq, not_and, Bool.not_eq_true]
+  rw [mem_dropSupers, hmin]
+  constructor
+  · rintro ⟨hm, hno⟩
+    have hs := matching_sound H t f c hm
+    refine ⟨(happ c).2 hs, fun d hd hdc => ?_⟩
+    obtain ⟨hdn, hdi⟩ := (happ d).1 hd
+    obtain ⟨e, he, hed⟩ := matching_complete H hH t f hf d hdn hdi
+    by_cases hsub : H.sub d c = true
+    · exfalso
+      have hec : H.sub e c = true := by
+        rcases hed with hed | hed
+        · rw [hed]; exact hsub
+        · exact hH.sub_trans _ _ _ hed hsub
+      have hne : e ≠ c := by
+        intro e1
+        rcases hed with hed | hed
+        · exact hdc (hed.symm.trans e1)
+        · rw [e1] at hed
+          exact hdc (hH.sub_antisymm _ _ hsub hed)
+      have := hno e he hne
+      rw [hec] at this; exact absurd this (by simp)
+    · simpa using hsub
+  · rintro ⟨ha, hno⟩
+    obtain ⟨hcn, hci⟩ := (happ c).1 ha
+    obtain ⟨e, he, hed⟩ := matching_complete H hH t f hf c hcn hci
+    have hec : e = c := by
+      rcases hed with hed | hed
+      · exact hed
+      · by_cases h : e = c
+        · exact h
+        · have hs := matching_sound H t f e he
+          have := hno e ((happ e).2 hs) h
+          rw [hed] at this; exact absurd this (by simp)
+    subst hec
+    refine ⟨he, fun o ho hoc => ?_⟩
+    have hs := matching_sound H t f o ho
+    exact hno o ((happ o).2 hs) hoc
+
+/-- **`_get_closest_type` returns an allowed type, and `None` only when none is allowed** -/
+theorem closest_allowed (H : Hier) (hH : HierFacts H) (t : Ty) (f : Forest) (cover : List Ty)
+    (hf : TreeInv H f) (hc : ∀ x, x ∈ cover ↔ x ∈ f.nodes) :
+    match closest H t f with
+    | none => allowed H cover t = []
+    | some c => c ∈ allowed H cover t := by
+  have hiff := dropSupers_matching_iff H hH t f cover hf hc
+  cases hcl : closest H t f with
+  | none =>
+    have hnil := pickMin_none hcl
+    have hmins : minimal H (applicable H cover t) = [] := by
+      cases hm : minimal H (applicable H cover t) with
+      | nil => rfl
+      | cons a l =>
+        have : a ∈ dropSupers H (matching H t f) := (hiff a).2 (by rw [hm]; simp)
+        rw [hnil] at this; simp at this
+    simp only [allowed, hmins]
+    cases firstNominal H t (applicable H cover t) <;> simp
+  | some c =>
+    obtain ⟨hmem, hkey⟩ := pickMin_some hcl
+    have hcmin : c ∈ minimal H (applicable H cover t) := (hiff c).1 hmem
+    simp only [allowed]
+    cases hfn : firstNominal H t (applicable H cover t) with
+    | none => exact hcmin
+    | some n =>
+      by_cases hn : (minimal H (applicable H cover t)).contains n = true
+      · simp only [hn, if_true, List.mem_singleton]
+        have hnmin : n ∈ minimal H (applicable H cover t) := by simpa using hn
+        have hnd : n ∈ dropSupers H (matching H t f) := (hiff n).2 hnmin
+        obtain ⟨hnm, hnp, hfirst⟩ := find?_first hfn
+        have hk : key H t c ≤ key H t n := hkey n hnd
+        have hlt : (H.mro t).idxOf n < (H.mro t).length := List.idxOf_lt_length_of_mem hnm
+        have hcm : c ∈ H.mro t := by
+          apply List.idxOf_lt_length_iff.1
+          unfold key at hk; omega
+        have hcapp : (applicable H cover t).contains c = true := by
+          have : c ∈ applicable H cover t := by
+            have := (List.mem_filter.1 (show c ∈ (applicable H cover t).filter _ from hcmin)).1
+            exact this
+          simpa using this
+        have := hfirst c hcm hcapp
+        exact idxOf_inj hcm hnm (by unfold key at hk; omega)
+      · simp only [hn]; exact hcmin
+
+/-! ### G. `register` / `register_op` seen per op -/
+
+theorem mem_insertSet (t : Ty) (c : List Ty) (x : Ty) : x ∈ insertSet t c ↔ x = t ∨ x ∈ c := by
+  unfold insertSet
+  by_cases h : c.contains t = true
+  · simp only [h, if_true]
+    constructor
+    · exact Or.inr
+    · rintro (h' | h')
+      · subst h'; simpa using h
+      · exact h'
+  · simp only [h]; simp [or_comm]
+
+/-- the per-op relation between a type tree and the reference's covering set -/
+def TreeRel (H : Hier) (f : Forest) (c : List Ty) : Prop :=
+  TreeInv H f ∧ GoodF H f ∧ ∀ x, x ∈ c ↔ x ∈ f.nodes
+
+theorem TreeRel.nil (H : Hier) : TreeRel H .nil [] := ⟨trivial, trivial, fun x => by simp [Forest.nodes]⟩
+
+theorem TreeRel.step {H : Hier} (hH : HierFacts H) (t : Ty) {f : Forest} {c : List Ty}
+    (h : TreeRel H f c) : TreeRel H (regFuzzy H t f) (insertSet t c) := by
+  obtain ⟨h1, h2, h3⟩ := h
+  obtain ⟨g1, g2⟩ := regFuzzy_good H hH.sub_trans t f.size f rfl h2
+  refine ⟨(regFuzzy_inv t h1).1, g1, fun x => ?_⟩
+  rw [mem_insertSet, g2 x, h3 x]
+
+theorem TreeRel.fold {H : Hier} (hH : HierFacts H) (order : List Ty) :
+    ∀ {f : Forest} {c : List Ty}, TreeRel H f c →
+      TreeRel H (order.foldl (fun tr t => regFuzzy H t tr) f) (order.foldl (fun c t => insertSet t c) c) := by
+  induction order with
+  | nil => intro f c h; exact h
+  | cons t l ih => intro f c h; exact ih (h.step hH t)
+
+theorem mem_fold_insertSet (order : List Ty) : ∀ (c : List Ty) (x : Ty),
+    x ∈ order.foldl (fun c t => insertSet t c) c ↔ x ∈ order ∨ x ∈ c := by
+  induction order with
+  | nil => intro c x; simp
+  | cons t l ih =>
+    intro c x
+    simp only [List.foldl_cons, ih, mem_insertSet, List.mem_cons]
+    constructor
+    · rintro (h | h | h) <;> simp [h]
+    · rintro ((h | h) | h) <;> simp [h]
+
+/-- the tree / cover part of `register` (the loop over `new_op_map`) -/
+theorem trees_fold {H : Hier} (hH : HierFacts H) (t : Ty) (l : List (Op × Handler)) :
+    ∀ (tt : List (Op × Forest)) (cv : List (Op × List Ty)),
+      (∀ op, TreeRel H ((odGet op tt).getD .nil) ((odGet op cv).getD [])) →
+      (∀ op, TreeRel H
+        ((odGet op (l.foldl (fun tt p => odSet p.1 (regFuzzy H t ((odGet p.1 tt).getD .nil)) tt) tt)).getD .nil)
+        ((odGet op (l.foldl (fun cv p => odSet p.1 (insertSet t ((odGet p.1 cv).getD [])) cv) cv)).getD [])) ∧
+      (∀ op x, x ∈ (odGet op (l.foldl (fun cv p => odSet p.1 (insertSet t ((odGet p.1 cv).getD [])) cv) cv)).getD [] →
+        x ∈ (odGet op cv).getD [] ∨ (x = t ∧ op ∈ l.map (·.1))) := by
+  induction l with
+  | nil => intro tt cv h; exact ⟨h, fun op x hx => Or.inl hx⟩
+  | cons p l ih =>
+    intro tt cv h
+    have hstep : ∀ op, TreeRel H
+        ((odGet op (odSet p.1 (regFuzzy H t ((odGet p.1 tt).getD .nil)) tt)).getD .nil)
+        ((odGet op (odSet p.1 (insertSet t ((odGet p.1 cv).getD [])) cv)).getD []) := by
+      intro op
+      by_cases ho : op = p.1
+      · subst ho; rw [odGet_odSet_same, odGet_odSet_same]; exact (h p.1).step hH t
+      · rw [odGet_odSet_ne _ _ ho, odGet_odSet_ne _ _ ho]; exact h op
+    obtain ⟨i1, i2⟩ := ih _ _ hstep
+    refine ⟨i1, fun op x hx => ?_⟩
+    rcases i2 op x hx with h' | h'
+    · by_cases ho : op = p.1
+      · subst ho
+        rw [odGet_odSet_same] at h'
+        simp only [Option.getD_some, mem_insertSet] at h'
+        rcases h' with h' | h'
+        · exact Or.inr ⟨h', by simp⟩
+        · exact Or.inl h'
+      · rw [odGet_odSet_ne _ _ ho] at h'; exact Or.inl h'
+    · exact Or.inr ⟨h'.1, by simp [h'.2]⟩
+
+/-- the handler-table part of `register` only adds keys, and adds the registered type for
+    every op of `new_op_map` -/
+theorem setHandlers_keys (t : Ty) (l : List (Op × Handler)) :
+    ∀ (tm : List (Op × List (Ty × Handler))),
+      (∀ op x, (odGet x ((odGet op tm).getD [])).isSome = true →
+        (odGet x ((odGet op (setHandlers tm t l)).getD [])).isSome = true) ∧
+      (∀ p ∈ l, (odGet t ((odGet p.1 (setHandlers tm t l)).getD [])).isSome = true) := by
+  induction l with
+  | nil => intro tm; exact ⟨fun _ _ h => h, fun p hp => by simp at hp⟩
+  | cons p l ih =>
+    intro tm
+    obtain ⟨i1, i2⟩ := ih (odSet p.1 (odSet t p.2 ((odGet p.1 tm).getD [])) tm)
+    have hmono : ∀ op x, (odGet x ((odGet op tm).getD [])).isSome = true →
+        (odGet x ((odGet op (odSet p.1 (odSet t p.2 ((odGet p.1 tm).getD [])) tm)).getD [])).isSome = true := by
+      intro op x hx
+      by_cases ho : op = p.1
+      · subst ho
+        rw [odGet_odSet_same]
+        simp only [Option.getD_some, odGet_odSet]
+        by_cases hxt : x = t
+        · simp [hxt]
+        · simp [hxt, hx]
+      · rw [odGet_odSet_ne _ _ ho]; exact hx
+    refine ⟨fun op x hx => i1 op x (hmono op x hx), fun q hq => ?_⟩
+    simp only [List.mem_cons] at hq
+    rcases hq with hq | hq
+    · subst hq
+      apply i1
+      rw [odGet_odSet_same]
+      simp [odGet_odSet_same]
+    · exact i2 q hq
+
+theorem fillAuto_keys (H : Hier) (auto : String) (order : List Ty) :
+    ∀ (m : List (Ty × Handler)) (x : Ty),
+      ((odGet x m).isSome = true ∨ x ∈ order) → (odGet x (fillAuto H auto order m)).isSome = true := by
+  unfold fillAuto
+  induction order with
+  | nil => intro m x h; simpa using h
+  | cons t l ih =>
+    intro m x h
+    simp only [List.foldl_cons]
+    apply ih
+    cases hg : odGet t m with
+    | some v =>
+      simp only
+      rcases h with h | h
+      · exact Or.inl h
+      · simp only [List.mem_cons] at h
+        rcases h with h | h
+        · subst h; left; simp [hg]
+        · exact Or.inr h
+    | none =>
+      simp only
+      rcases h with h | h
+      · left; rw [odGet_odSet]; by_cases hx : x = t <;> simp [hx, h]
+      · simp only [List.mem_cons] at h
+        rcases h with h | h
+        · subst h; left; simp [odGet_odSet_same]
+        · exact Or.inr h
+
+/-! ### H. registry invariants along histories -/
+
+/-- what holds between a registry of the model and the reference registry after the same
+    history: same handler table, every type tree well-formed and containing exactly the covering
+    types, every tree node has a handler, and the memo only holds current answers -/
+structure Rel (H : Hier) (r : Reg) (ρ : RefReg) : Prop where
+  handlers : ρ.handlers = r.typeMap
+  autoOps : ρ.autoOps = r.autoMap
+  tree : ∀ op, TreeRel H (r.tree op) (ρ.coverOf op)
+  subMap : ∀ op x, x ∈ (r.tree op).nodes → (odGet x (r.map op)).isSome = true
+  cache : ∀ t op h, odGet (t, op) r.cache = some h → resolve H r op t = some h
+
+theorem Rel.empty (H : Hier) : Rel H {} {} where
+  handlers := rfl
+  autoOps := rfl
+  tree := fun op => by simpa [Reg.tree, RefReg.coverOf, odGet] using TreeRel.nil H
+  subMap := fun op x hx => by simp [Reg.tree, odGet, Forest.nodes] at hx
+  cache := fun t op h hc => by simp [odGet] at hc
+
+theorem rel_register {H : Hier} (hH : HierFacts H) {r : Reg} {ρ : RefReg} (h : Rel H r ρ)
+    (t : Ty) (exact : Bool) (kw : List (Op × Handler)) :
+    Rel H (register H r t exact kw) (refRegister H ρ t exact kw) := by
+  have hnm : newOpMap H ρ.handlers ρ.autoOps t kw = newOpMap H r.typeMap r.autoMap t kw := by
+    rw [h.handlers, h.autoOps]
+  obtain ⟨k1, k2⟩ := setHandlers_keys t (newOpMap H r.typeMap r.autoMap t kw) r.typeMap
+  refine ⟨?_, ?_, ?_, ?_, ?_⟩
+  · simp only [refRegister, Glom.C13.register, h.handlers, h.autoOps]
+  · simp only [refRegister, Glom.C13.register, h.autoOps]
+  · intro op
+    by_cases he : exact = true
+    · subst he
+      simpa [refRegister, Glom.C13.register, Reg.tree, RefReg.coverOf] using h.tree op
+    · have he' : exact = false := by simpa using he
+      subst he'
+      have := (trees_fold hH t (newOpMap H r.typeMap r.autoMap t kw) r.typeTree ρ.cover h.tree).1 op
+      simpa [refRegister, Glom.C13.register, Reg.tree, RefReg.coverOf, hnm] using this
+  · intro op x hx
+    by_cases he : exact = true
+    · subst he
+      have hx' : x ∈ (r.tree op).nodes := by simpa [Glom.C13.register, Reg.tree] using hx
+      have := k1 op x (h.subMap op x hx')
+      simpa [Glom.C13.register, Reg.map] using this
+    · have he' : exact = false := by simpa using he
+      subst he'
+      obtain ⟨f1, f2⟩ := trees_fold hH t (newOpMap H r.typeMap r.autoMap t kw) r.typeTree ρ.cover h.tree
+      have hx' : x ∈ ((odGet op ((newOpMap H r.typeMap r.autoMap t kw).foldl
+          (fun tt p => odSet p.1 (regFuzzy H t ((odGet p.1 tt).getD .nil)) tt) r.typeTree)).getD .nil).nodes := by
+        simpa [Glom.C13.register, Reg.tree] using hx
+      have hcov := ((f1 op).2.2 x).2 hx'
+      rcases f2 op x hcov with hc | ⟨hc1, hc2⟩
+      · have hxn : x ∈ (r.tree op).nodes := ((h.tree op).2.2 x).1 hc
+        have := k1 op x (h.subMap op x hxn)
+        simpa [Glom.C13.register, Reg.map] using this
+      · subst hc1
+        obtain ⟨p, hp, hpo⟩ := List.mem_map.1 hc2
+        have := k2 p hp
+        rw [hpo] at this
+        simpa [Glom.C13.register, Reg.map] using this
+  · intro t' op h' hc
+    simp [Glom.C13.register, odGet] at hc
+
+theorem rel_registerOp {H : Hier} (hH : HierFacts H) {r : Reg} {ρ : RefReg} (h : Rel H r ρ)
+    (op : Op) (auto : String) (exact : Bool) (order : List Ty) :
+    Rel H (registerOp H r op auto exact order) (refRegisterOp H ρ op auto exact order) := by
+  have htab : ρ.table op = r.map op := by simp [RefReg.table, Reg.map, h.handlers]
+  refine ⟨?_, ?_, ?_, ?_, ?_⟩
+  · simp only [refRegisterOp, Glom.C13.registerOp, htab, h.handlers]
+  · simp only [refRegisterOp, Glom.C13.registerOp, h.autoOps]
+  · intro op'
+    by_cases ho : op' = op
+    · subst ho
+      simp only [refRegisterOp, Glom.C13.registerOp, Reg.tree, RefReg.coverOf, odGet_odSet_same, Option.getD_some]
+      by_cases he : exact = true
+      · simp only [he, if_true]; exact h.tree op'
+      · simp only [he]; exact (h.tree op').fold hH order
+    · simp only [refRegisterOp, Glom.C13.registerOp, Reg.tree, RefReg.coverOf, odGet_odSet_ne _ _ ho]
+      exact h.tree op'
+  · intro op' x hx
+    by_cases ho : op' = op
+    · subst ho
+      simp only [Glom.C13.registerOp, Reg.tree, Reg.map, odGet_odSet_same, Option.getD_some] at hx ⊢
+      apply fillAuto_keys
+      by_cases he : exact = true
+      · simp only [he, if_true] at hx; exact Or.inl (h.subMap op' x hx)
+      · simp only [he] at hx
+        have hrel := (h.tree op').fold hH order
+        have hcov := (hrel.2.2 x).2 hx
+        rcases (mem_fold_insertSet order _ x).1 hcov with hc | hc
+        · exact Or.inr hc
+        · exact Or.inl (h.subMap op' x (((h.tree op').2.2 x).1 hc))
+    · simp only [Glom.C13.registerOp, Reg.tree, Reg.map, odGet_odSet_ne _ _ ho] at hx ⊢
+      exact h.subMap op' x hx
+  · intro t' op' h' hc
+    simp [Glom.C13.registerOp, odGet] at hc
+
+theorem closest_mem_nodes {H : Hier} {t : Ty} {f : Forest} {c : Ty} (h : closest H t f = some c) :
+    c ∈ f.nodes ∧ H.inst t c = true := by
+  have := (pickMin_some h).1
+  exact matching_sound H t f c ((mem_dropSupers H _ c).1 this).1
+
+/-- the un-memoised lookup always produces a handler value (never the KeyError), and it is one
+    the reference allows -/
+theorem resolve_ok {H : Hier} (hH : HierFacts H) {r : Reg} {ρ : RefReg} (h : Rel H r ρ) (op : Op) (t : Ty) :
+    ∃ hd, resolve H r op t = some hd ∧ hd ∈ refAnswers H ρ op t := by
+  have htab : ρ.table op = r.map op := by simp [RefReg.table, Reg.map, h.handlers]
+  unfold resolve refAnswers
+  rw [htab]
+  by_cases he : (r.map op).isEmpty = true
+  · simp [he]
+  · simp only [he, Bool.false_eq_true, if_false]
+    cases hg : odGet t (r.map op) with
+    | some hd => exact ⟨hd, rfl, by simp⟩
+    | none =>
+      simp only
+      have hca := closest_allowed H hH t (r.tree op) (ρ.coverOf op) (h.tree op).1
+        (h.tree op).2.2
+      cases hcl : closest H t (r.tree op) with
+      | none =>
+        rw [hcl] at hca
+        simp only at hca
+        exact ⟨none, rfl, by simp [hca]⟩
+      | some c =>
+        rw [hcl] at hca
+        simp only at hca
+        have hcn := (closest_mem_nodes hcl).1
+        have hs := h.subMap op c hcn
+        cases hgc : odGet c (r.map op) with
+        | none => rw [hgc] at hs; simp at hs
+        | some hd =>
+          refine ⟨hd, by simp [hgc], ?_⟩
+          have hne : (allowed H (ρ.coverOf op) t).isEmpty = false := by
+            cases hal : allowed H (ρ.coverOf op) t with
+            | nil => rw [hal] at hca; simp at hca
+            | cons a l => rfl
+          simp only [hne, Bool.false_eq_true, if_false, List.mem_filterMap]
+          exact ⟨c, hca, hgc⟩
+
+theorem resolve_cache_irrel (H : Hier) (r : Reg) (c : List ((Ty × Op) × Handler)) (op : Op) (t : Ty) :
+    resolve H { r with cache := c } op t = resolve H r op t := rfl
+
+/-- one `get_handler` call: the answer is allowed by the reference, and the registry (now with
+    one more memo entry at most) still corresponds to the same reference registry -/
+theorem rel_getHandler {H : Hier} (hH : HierFacts H) {r : Reg} {ρ : RefReg} (h : Rel H r ρ)
+    (op : Op) (t : Ty) (raiseExc : Bool) :
+    Rel H (getHandler H r op t raiseExc).1 ρ ∧
+      answerOk (refAnswers H ρ op t) (getHandler H r op t raiseExc).2 = true := by
+  obtain ⟨hd, hres, hacc⟩ := resolve_ok hH h op t
+  unfold getHandler
+  cases hc : odGet (t, op) r.cache with
+  | some hd' =>
+    simp only
+    have := h.cache t op hd' hc
+    rw [hres] at this
+    injection this with this
+    subst this
+    exact ⟨h, by simpa [answerOk] using hacc⟩
+  | none =>
+    simp only [hres]
+    by_cases hn : (hd.isNone && raiseExc) = true
+    · simp only [hn, if_true]
+      refine ⟨h, ?_⟩
+      have : hd = none := by
+        cases hd with
+        | none => rfl
+        | some v => simp at hn
+      subst this
+      simpa [answerOk] using hacc
+    · simp only [hn, Bool.false_eq_true, if_false]
+      refine ⟨⟨h.handlers, h.autoOps, h.tree, h.subMap, ?_⟩, by simpa [answerOk] using hacc⟩
+      intro t' op' h' hc'
+      rw [resolve_cache_irrel]
+      by_cases hk : (t', op') = (t, op)
+      · injection hk with h1 h2
+        subst h1; subst h2
+        rw [odGet_odSet_same] at hc'
+        injection hc' with hc'
+        subst hc'
+        exact hres
+      · rw [odGet_odSet_ne _ _ hk] at hc'
+        exact h.cache t' op' h' hc'
+
+/-! #### worlds -/
+
+inductive All2 {α β : Type} (R : α → β → Prop) : List α → List β → Prop where
+  | nil : All2 R [] []
+  | cons {a b as bs} : R a b → All2 R as bs → All2 R (a :: as) (b :: bs)
+
+theorem All2.updateAt {α β : Type} {R : α → β → Prop} {f : α → α} {g : β → β}
+    (hfg : ∀ a b, R a b → R (f a) (g b)) :
+    ∀ (i : Nat) {w : List α} {ω : List β}, All2 R w ω →
+      All2 R (Glom.C13.updateAt f i w) (Glom.C13.updateAt g i ω) := by
+  intro i w ω h
+  induction h generalizing i with
+  | nil => cases i <;> exact .nil
+  | cons hab hrest ih =>
+    cases i with
+    | zero => exact .cons (hfg _ _ hab) hrest
+    | succ n => exact .cons hab (ih n)
+
+/-- replacing one registry by one that corresponds to the same reference registry -/
+theorem All2.updateAt_left {α β : Type} {R : α → β → Prop} {a' : α} :
+    ∀ (i : Nat) {w : List α} {ω : List β}, All2 R w ω →
+      (∀ b, ω[i]? = some b → R a' b) → All2 R (Glom.C13.updateAt (fun _ => a') i w) ω := by
+  intro i w ω h
+  induction h generalizing i with
+  | nil => intro _; cases i <;> exact .nil
+  | cons hab hrest ih =>
+    intro hb
+    cases i with
+    | zero => exact .cons (hb _ (by simp)) hrest
+    | succ n => exact .cons hab (ih n (fun b hb' => hb b (by simpa using hb')))
+
+theorem All2.get {α β : Type} {R : α → β → Prop} :
+    ∀ {w : List α} {ω : List β}, All2 R w ω → ∀ (i : Nat),
+      (∀ a, w[i]? = some a → ∃ b, ω[i]? = some b ∧ R a b) ∧ (w[i]? = none → ω[i]? = none) := by
+  intro w ω h
+  induction h with
+  | nil => intro i; simp
+  | cons hab _ ih =>
+    intro i
+    cases i with
+    | zero => exact ⟨fun a ha => by simp at ha; subst ha; exact ⟨_, by simp, hab⟩, fun h => by simp at h⟩
+    | succ n => simpa using ih n
+
+theorem All2.map {α β γ : Type} {R : α → β → Prop} (f : γ → α) (g : γ → β) (h : ∀ c, R (f c) (g c)) :
+    ∀ l : List γ, All2 R (l.map f) (l.map g) := by
+  intro l
+  induction l with
+  | nil => exact .nil
+  | cons c l ih => exact .cons (h c) ih
+
+/-- **every history, every interleaving**: along any list of actions, starting from
+    corresponding worlds, every lookup answer of the model is one the reference allows at that
+    moment -/
+theorem run_checks {H : Hier} (hH : HierFacts H) (acts : List Action) :
+    ∀ (w : List Reg) (ω : List RefReg), All2 (Rel H) w ω →
+      checkRun H ω acts (run H w acts) = true := by
+  induction acts with
+  | nil => intro w ω _; simp [run, checkRun]
+  | cons a as ih =>
+    intro w ω hw
+    cases a with
+    | register i t e kw =>
+      simp only [run, step, checkRun, refStep, Bool.true_and]
+      exact ih _ _ (All2.updateAt (fun r ρ h => rel_register hH h t e kw) i hw)
+    | registerOp i op au e ord =>
+      simp only [run, step, checkRun, refStep, Bool.true_and]
+      exact ih _ _ (All2.updateAt (fun r ρ h => rel_registerOp hH h op au e ord) i hw)
+    | lookup i op t re =>
+      simp only [run, step]
+      obtain ⟨hsome, hnone⟩ := hw.get i
+      cases hi : w[i]? with
+      | none =>
+        simp only [checkRun, refStep, hnone hi, Bool.true_and]
+        exact ih _ _ hw
+      | some r =>
+        obtain ⟨ρ, hρ, hrel⟩ := hsome r hi
+        obtain ⟨g1, g2⟩ := rel_getHandler hH hrel op t re
+        simp only [checkRun, refStep, hρ, g2, Bool.true_and]
+        apply ih
+        apply All2.updateAt_left i hw
+        intro b hb
+        rw [hρ] at hb
+        injection hb with hb
+        subst hb
+        exact g1
+
+/-! #### initial registries -/
+
+theorem rel_foldl {H : Hier} {γ : Type} (sM : Reg → γ → Reg) (sR : RefReg → γ → RefReg)
+    (h : ∀ r ρ x, Rel H r ρ → Rel H (sM r x) (sR ρ x)) :
+    ∀ (xs : List γ) (r : Reg) (ρ : RefReg), Rel H r ρ → Rel H (xs.foldl sM r) (xs.foldl sR ρ) := by
+  intro xs
+  induction xs with
+  | nil => intro r ρ hr; exact hr
+  | cons x xs ih => intro r ρ hr; exact ih _ _ (h r ρ x hr)
+
+theorem rel_freshReg {H : Hier} (hH : HierFacts H) (S : Setup) (d : Bool) :
+    Rel H (freshReg H S d) (refFresh H S d) := by
+  have h0 : Rel H
+      (S.builtinOps.foldl (fun r o => registerOp H r o.op o.auto o.exact []) ({} : Reg))
+      (S.builtinOps.foldl (fun ρ o => refRegisterOp H ρ o.op o.auto o.exact []) ({} : RefReg)) :=
+    rel_foldl _ _ (fun r ρ o hr => rel_registerOp hH hr o.op o.auto o.exact []) _ _ _ (Rel.empty H)
+  unfold freshReg refFresh
+  cases d with
+  | false => simpa using h0
+  | true =>
+    simp only [if_true]
+    exact rel_foldl _ _ (fun r ρ x hr => rel_register hH hr x.ty x.exact x.kw) _ _ _ h0
+
+theorem rel_moduleReg {H : Hier} (hH : HierFacts H) (S : Setup) (orders : List (List Ty)) :
+    Rel H (moduleReg H S orders) (refModule H S orders) := by
+  unfold moduleReg refModule
+  exact rel_foldl _ _ (fun r ρ p hr => rel_registerOp hH hr p.1.op p.1.auto p.1.exact p.2) _ _ _
+    (rel_freshReg hH S true)
+
+theorem rel_mk {H : Hier} (hH : HierFacts H) (S : Setup) (orders : List (List Ty)) (k : RegKind) :
+    Rel H (mkReg H S orders k) (refMk H S orders k) := by
+  cases k with
+  | module => exact rel_moduleReg hH S orders
+  | registry d => exact rel_freshReg hH S d
+  | glommer d => exact rel_freshReg hH S d
+
+/-- one action keeps the worlds in correspondence -/
+theorem step_rel {H : Hier} (hH : HierFacts H) (a : Action) {w : List Reg} {ω : List RefReg}
+    (hw : All2 (Rel H) w ω) : All2 (Rel H) (step H w a).1 (refStep H ω a) := by
+  cases a with
+  | register i t e kw => exact All2.updateAt (fun r ρ h => rel_register hH h t e kw) i hw
+  | registerOp i op au e ord => exact All2.updateAt (fun r ρ h => rel_registerOp hH h op au e ord) i hw
+  | lookup i op t re =>
+    simp only [step, refStep]
+    obtain ⟨hsome, _⟩ := hw.get i
+    cases hi : w[i]? with
+    | none => exact hw
+    | some r =>
+      obtain ⟨ρ, hρ, hrel⟩ := hsome r hi
+      simp only
+      apply All2.updateAt_left i hw
+      intro b hb
+      rw [hρ] at hb
+      injection hb with hb
+      subst hb
+      exact (rel_getHandler hH hrel op t re).1
+
+theorem finalWorld_rel {H : Hier} (hH : HierFacts H) (acts : List Action) :
+    ∀ {w : List Reg} {ω : List RefReg}, All2 (Rel H) w ω →
+      All2 (Rel H) (finalWorld H w acts) (acts.foldl (refStep H) ω) := by
+  induction acts with
+  | nil => intro w ω hw; exact hw
+  | cons a as ih => intro w ω hw; exact ih (step_rel hH a hw)
+
+/-! #### the memo -/
+
+/-- the handler an answer stands for (`False` returned and UnregisteredTarget raised both mean
+    "no handler") -/
+def Answer.handler : Answer → Option Handler
+  | .ret h => some h
+  | .unregistered => some none
+  | .keyError => none
+
+theorem getHandler_handler {H : Hier} (hH : HierFacts H) {r : Reg} {ρ : RefReg} (h : Rel H r ρ)
+    (op : Op) (t : Ty) (re : Bool) : (getHandler H r op t re).2.handler = resolve H r op t := by
+  obtain ⟨hd, hres, _⟩ := resolve_ok hH h op t
+  unfold getHandler
+  cases hc : odGet (t, op) r.cache with
+  | some hd' =>
+    have := h.cache t op hd' hc
+    simp only [Answer.handler, this]
+  | none =>
+    simp only [hres]
+    by_cases hn : (hd.isNone && re) = true
+    · simp only [hn, if_true, Answer.handler]
+      cases hd with
+      | none => rfl
+      | some v => simp at hn
+    · simp only [hn, Bool.false_eq_true, if_false, Answer.handler]
+
+/-- two registries that differ in their memo only -/
+def EqC (r r' : Reg) : Prop :=
+  r.typeMap = r'.typeMap ∧ r.typeTree = r'.typeTree ∧ r.autoMap = r'.autoMap
+
+theorem EqC.resolve {r r' : Reg} (h : EqC r r') (H : Hier) (op : Op) (t : Ty) :
+    resolve H r op t = resolve H r' op t := by
+  simp [Glom.C13.resolve, Reg.map, Reg.tree, h.1, h.2.1]
+
+theorem EqC.register {r r' : Reg} (h : EqC r r') (H : Hier) (t : Ty) (e : Bool) (kw : List (Op × Handler)) :
+    EqC (Glom.C13.register H r t e kw) (Glom.C13.register H r' t e kw) := by
+  simp [EqC, Glom.C13.register, h.1, h.2.1, h.2.2]
+
+theorem EqC.registerOp {r r' : Reg} (h : EqC r r') (H : Hier) (op : Op) (a : String) (e : Bool)
+    (ord : List Ty) : EqC (Glom.C13.registerOp H r op a e ord) (Glom.C13.registerOp H r' op a e ord) := by
+  simp [EqC, Glom.C13.registerOp, Reg.map, Reg.tree, h.1, h.2.1, h.2.2]
+
+theorem getHandler_eqC (H : Hier) (r : Reg) (op : Op) (t : Ty) (re : Bool) :
+    EqC (getHandler H r op t re).1 r := by
+  unfold getHandler
+  cases odGet (t, op) r.cache with
+  | some h => exact ⟨rfl, rfl, rfl⟩
+  | none =>
+    simp only
+    cases resolve H r op t with
+    | none => exact ⟨rfl, rfl, rfl⟩
+    | some h =>
+      simp only
+      by_cases hn : (h.isNone && re) = true
+      · simp only [hn, if_true]; exact ⟨rfl, rfl, rfl⟩
+      · simp only [hn, Bool.false_eq_true, if_false]; exact ⟨rfl, rfl, rfl⟩
+
+def Action.isLookup : Action → Bool
+  | .lookup .. => true
+  | _ => false
+
+theorem All2.refl_eqC : ∀ (w : List Reg), All2 EqC w w := by
+  intro w
+  induction w with
+  | nil => exact .nil
+  | cons r w ih => exact .cons ⟨rfl, rfl, rfl⟩ ih
+
+/-- a history and the same history with its lookups deleted lead to registries that differ in
+    their memo only -/
+theorem finalWorld_dropLookups (H : Hier) (acts : List Action) :
+    ∀ {w w' : List Reg}, All2 EqC w w' →
+      All2 EqC (finalWorld H w acts) (finalWorld H w' (acts.filter (fun a => !a.isLookup))) := by
+  induction acts with
+  | nil => intro w w' h; exact h
+  | cons a as ih =>
+    intro w w' h
+    cases a with
+    | register i t e kw =>
+      simp only [finalWorld, step, List.filter, Action.isLookup, Bool.not_false]
+      exact ih (All2.updateAt (fun r r' hr => hr.register H t e kw) i h)
+    | registerOp i op au e ord =>
+      simp only [finalWorld, step, List.filter, Action.isLookup, Bool.not_false]
+      exact ih (All2.updateAt (fun r r' hr => hr.registerOp H op au e ord) i h)
+    | lookup i op t re =>
+      simp only [finalWorld, step, List.filter, Action.isLookup, Bool.not_true]
+      apply ih
+      cases hi : w[i]? with
+      | none => exact h
+      | some r =>
+        simp only
+        obtain ⟨hsome, _⟩ := h.get i
+        obtain ⟨r', hr', hrr⟩ := hsome r hi
+        apply All2.updateAt_left i h
+        intro b hb
+        rw [hr'] at hb
+        injection hb with hb
+        subst hb
+        have := getHandler_eqC H r op t re
+        exact ⟨this.1.trans hrr.1, this.2.1.trans hrr.2.1, this.2.2.trans hrr.2.2⟩
+
+theorem refStep_dropLookups (H : Hier) (acts : List Action) :
+    ∀ ω, (acts.filter (fun a => !a.isLookup)).foldl (refStep H) ω = acts.foldl (refStep H) ω := by
+  induction acts with
+  | nil => intro ω; rfl
+  | cons a as ih =>
+    intro ω
+    cases a with
+    | register i t e kw =>
+      simp only [List.filter, Action.isLookup, Bool.not_false, List.foldl_cons]; exact ih _
+    | registerOp i op au e ord =>
+      simp only [List.filter, Action.isLookup, Bool.not_false, List.foldl_cons]; exact ih _
+    | lookup i op t re =>
+      simp only [List.filter, Action.isLookup, Bool.not_true, List.foldl_cons, refStep]; exact ih _
+
+/-! #### what `register` stores, which types cover, congruence of `allowed` -/
+
+theorem setHandlers_value (t : Ty) (pick : Op → Handler) (ops : List Op) :
+    ∀ (done : List Op) (tm : List (Op × List (Ty × Handler))),
+      (∀ op ∈ done, odGet t ((odGet op tm).getD []) = some (pick op)) →
+      ∀ op, op ∈ done ∨ op ∈ ops →
+        odGet t ((odGet op (setHandlers tm t (ops.map (fun o => (o, pick o))))).getD []) = some (pick op) := by
+  induction ops with
+  | nil =>
+    intro done tm h op hop
+    rcases hop with hop | hop
+    · exact h op hop
+    · simp at hop
+  | cons o ops ih =>
+    intro done tm h op hop
+    simp only [List.map_cons, setHandlers, List.foldl_cons]
+    apply ih (o :: done)
+    · intro op' hop'
+      by_cases ho : op' = o
+      · subst ho; rw [odGet_odSet_same]; simp [odGet_odSet_same]
+      · rw [odGet_odSet_ne _ _ ho]
+        simp only [List.mem_cons] at hop'
+        exact h op' (hop'.resolve_left ho)
+    · simp only [List.mem_cons] at hop ⊢
+      rcases hop with hop | hop | hop
+      · exact Or.inl (Or.inr hop)
+      · exact Or.inl (Or.inl hop)
+      · exact Or.inr hop
+
+theorem cover_fold_iff (t : Ty) (l : List (Op × Handler)) :
+    ∀ (cv : List (Op × List Ty)) (op : Op) (x : Ty),
+      x ∈ (odGet op (l.foldl (fun cv p => odSet p.1 (insertSet t ((odGet p.1 cv).getD [])) cv) cv)).getD [] ↔
+        x ∈ (odGet op cv).getD [] ∨ (x = t ∧ op ∈ l.map (·.1)) := by
+  induction l with
+  | nil => intro cv op x; simp
+  | cons p l ih =>
+    intro cv op x
+    simp only [List.foldl_cons, ih, List.map_cons, List.mem_cons]
+    by_cases ho : op = p.1
+    · subst ho
+      rw [odGet_odSet_same]
+      simp only [Option.getD_some, mem_insertSet]
+      constructor
+      · rintro ((h | h) | h)
+        · exact Or.inr ⟨h, by simp⟩
+        · exact Or.inl h
+        · exact Or.inr ⟨h.1, by simp [h.2]⟩
+      · rintro (h | ⟨h1, h2⟩)
+        · exact Or.inl (Or.inr h)
+        · exact Or.inl (Or.inl h1)
+    · rw [odGet_odSet_ne _ _ ho]
+      constructor
+      · rintro (h | h)
+        · exact Or.inl h
+        · exact Or.inr ⟨h.1, Or.inr h.2⟩
+      · rintro (h | ⟨h1, h2 | h2⟩)
+        · exact Or.inl h
+        · exact absurd h2 ho
+        · exact Or.inr ⟨h1, h2⟩
+
+theorem newOpMap_keys (H : Hier) (tm : List (Op × List (Ty × Handler))) (am : List (Op × String))
+    (t : Ty) (kw : List (Op × Handler)) :
+    (newOpMap H tm am t kw).map (·.1) = opsOf (am.map (·.1)) kw := by
+  simp [newOpMap, Function.comp_def]
+
+/-- which types cover after `register`: the old ones, plus the registered type for every op the
+    call touches unless `exact` -/
+theorem refRegister_cover (H : Hier) (ρ : RefReg) (t : Ty) (e : Bool) (kw : List (Op × Handler))
+    (op : Op) (x : Ty) :
+    x ∈ (refRegister H ρ t e kw).coverOf op ↔
+      x ∈ ρ.coverOf op ∨ (x = t ∧ e = false ∧ op ∈ opsOf (ρ.autoOps.map (·.1)) kw) := by
+  cases e with
+  | true => simp [refRegister, RefReg.coverOf]
+  | false =>
+    simp only [refRegister, RefReg.coverOf, Bool.false_eq_true, if_false, cover_fold_iff, newOpMap_keys,
+      true_and]
+
+theorem refRegister_autoOps (H : Hier) (ρ : RefReg) (t : Ty) (e : Bool) (kw : List (Op × Handler)) :
+    (refRegister H ρ t e kw).autoOps = ρ.autoOps := rfl
+
+/-- a list of registrations `(type, exact, kwargs)` applied to a reference registry -/
+def refRegisterAll (H : Hier) (ρ : RefReg) (regs : List (Ty × Bool × List (Op × Handler))) : RefReg :=
+  regs.foldl (fun ρ g => refRegister H ρ g.1 g.2.1 g.2.2) ρ
+
+theorem refRegisterAll_autoOps (H : Hier) (regs : List (Ty × Bool × List (Op × Handler))) :
+    ∀ ρ, (refRegisterAll H ρ regs).autoOps = ρ.autoOps := by
+  induction regs with
+  | nil => intro ρ; rfl
+  | cons g regs ih => intro ρ; simp only [refRegisterAll, List.foldl_cons]; exact (ih _).trans rfl
+
+theorem refRegisterAll_cover (H : Hier) (regs : List (Ty × Bool × List (Op × Handler))) :
+    ∀ (ρ : RefReg) (op : Op) (x : Ty),
+      x ∈ (refRegisterAll H ρ regs).coverOf op ↔
+        x ∈ ρ.coverOf op ∨ ∃ g ∈ regs, x = g.1 ∧ g.2.1 = false ∧ op ∈ opsOf (ρ.autoOps.map (·.1)) g.2.2 := by
+  induction regs with
+  | nil => intro ρ op x; simp [refRegisterAll]
+  | cons g regs ih =>
+    intro ρ op x
+    have := ih (refRegister H ρ g.1 g.2.1 g.2.2) op x
+    simp only [refRegisterAll, List.foldl_cons] at this ⊢
+    rw [this, refRegister_cover, refRegister_autoOps]
+    simp only [List.mem_cons, exists_eq_or_imp]
+    constructor
+    · rintro ((h | h) | h)
+      · exact Or.inl h
+      · exact Or.inr (Or.inl h)
+      · exact Or.inr (Or.inr h)
+    · rintro (h | h | h)
+      · exact Or.inl (Or.inl h)
+      · exact Or.inl (Or.inr h)
+      · exact Or.inr h
+
+theorem mem_applicable (H : Hier) (cover : List Ty) (t x : Ty) :
+    x ∈ applicable H cover t ↔ x ∈ cover ∧ H.inst t x = true := by
+  simp [applicable]
+
+theorem mem_minimal (H : Hier) (app : List Ty) (x : Ty) :
+    x ∈ minimal H app ↔ x ∈ app ∧ ∀ d ∈ app, d ≠ x → H.sub d x = false := by
+  simp only [minimal, strictlyBelow, List.mem_filter, Bool.not_eq_true', List.any_eq_false,
+    Bool.and_eq_true, bne_iff_ne, ne_eq, not_and, Bool.not_eq_true]
+
+/-- `allowed` depends on the covering types as a set only -/
+theorem mem_allowed_congr (H : Hier) (t : Ty) {c1 c2 : List Ty} (hc : ∀ x, x ∈ c1 ↔ x ∈ c2) (x : Ty) :
+    x ∈ allowed H c1 t ↔ x ∈ allowed H c2 t := by
+  have happ : ∀ y, y ∈ applicable H c1 t ↔ y ∈ applicable H c2 t := by
+    intro y; rw [mem_applicable, mem_applicable, hc y]
+  have hmin : ∀ y, y ∈ minimal H (applicable H c1 t) ↔ y ∈ minimal H (applicable H c2 t) := by
+    intro y
+    rw [mem_minimal, mem_minimal, happ y]
+    constructor
+    · rintro ⟨h1, h2⟩; exact ⟨h1, fun d hd => h2 d ((happ d).2 hd)⟩
+    · rintro ⟨h1, h2⟩; exact ⟨h1, fun d hd => h2 d ((happ d).1 hd)⟩
+  have hpred : (fun c => (applicable H c1 t).contains c) = (fun c => (applicable H c2 t).contains c) := by
+    funext c
+    by_cases h : c ∈ applicable H c1 t
+    · have h2 := (happ c).1 h
+      simp [h, h2]
+    · have h2 : c ∉ applicable H c2 t := fun h' => h ((happ c).2 h')
+      simp [h, h2]
+  have hfn : firstNominal H t (applicable H c1 t) = firstNominal H t (applicable H c2 t) := by
+    simp only [firstNominal, hpred]
+  simp only [allowed, hfn]
+  cases firstNominal H t (applicable H c2 t) with
+  | none => exact hmin x
+  | some n =>
+    have hcn : (minimal H (applicable H c1 t)).contains n = (minimal H (applicable H c2 t)).contains n := by
+      by_cases h : n ∈ minimal H (applicable H c1 t)
+      · have h2 := (hmin n).1 h; simp [h, h2]
+      · have h2 : n ∉ minimal H (applicable H c2 t) := fun h' => h ((hmin n).2 h')
+        simp [h, h2]
+    simp only [hcn]
+    by_cases hb : (minimal H (applicable H c2 t)).contains n = true
+    · simp only [hb, if_true]
+    · simp only [hb]; exact hmin x
+
+/-- when every matching covering type is a real base class (no virtual match), the nearest base
+    class in MRO order is the only allowed type -/
+theorem allowed_nominal (H : Hier) (hH : HierFacts H) (cover : List Ty) (t n : Ty)
+    (hnom : ∀ x ∈ applicable H cover t, x ∈ H.mro t)
+    (hfn : firstNominal H t (applicable H cover t) = some n) : allowed H cover t = [n] := by
+  obtain ⟨hnm, hnp, hfirst⟩ := find?_first hfn
+  have hnapp : n ∈ applicable H cover t := by simpa using hnp
+  have hmin : n ∈ minimal H (applicable H cover t) := by
+    rw [mem_minimal]
+    refine ⟨hnapp, fun d hd hdn => ?_⟩
+    by_cases hs : H.sub d n = true
+    · exfalso
+      have hdm := hnom d hd
+      have h1 := hH.mro_lin t n d hnm hdm hs hdn
+      have h2 := hfirst d hdm (by simpa using hd)
+      omega
+    · simpa using hs
+  have : (minimal H (applicable H cover t)).contains n = true := by simpa using hmin
+  simp only [allowed, hfn, this, if_true]
+
+/-! #### the hierarchy facts of a table-given hierarchy follow from the decidable check -/
+
+theorem hierFacts_of_table (T : HierTab) (h : tableOK T = true) : HierFacts T.toHier := by
+  simp only [tableOK, Bool.and_eq_true] at h
+  obtain ⟨⟨⟨⟨h1, h2⟩, h3⟩, h4⟩, h5⟩ := h
+  have mem_of_contains : ∀ {α : Type} [BEq α] [LawfulBEq α] {l : List α} {x : α},
+      l.contains x = true → x ∈ l := fun h => by simpa using h
+  refine ⟨?_, ?_, ?_, ?_, ?_⟩
+  · intro a b c hab hbc
+    simp only [HierTab.toHier] at hab hbc ⊢
+    have := List.all_eq_true.1 (List.all_eq_true.1 h1 (a, b) (mem_of_contains hab)) (b, c) (mem_of_contains hbc)
+    simpa using this
+  · intro a b hab hba
+    simp only [HierTab.toHier] at hab hba
+    have := List.all_eq_true.1 h2 (a, b) (mem_of_contains hab)
+    simp only [hba, Bool.not_true, Bool.false_or, beq_iff_eq] at this
+    exact this
+  · intro t c hc
+    simp only [HierTab.toHier] at hc ⊢
+    cases hg : odGet t T.mro with
+    | none => rw [hg] at hc; simp at hc
+    | some m =>
+      rw [hg] at hc
+      simp only [Option.getD_some] at hc
+      have := List.all_eq_true.1 (List.all_eq_true.1 h3 (t, m) (odGet_some_mem hg)) c hc
+      exact this
+  · intro t c d hi hs
+    simp only [HierTab.toHier] at hi hs ⊢
+    have := List.all_eq_true.1 (List.all_eq_true.1 h4 (t, c) (mem_of_contains hi)) (c, d) (mem_of_contains hs)
+    simpa using this
+  · intro t c d hc hd hs hne
+    simp only [HierTab.toHier] at hc hd hs ⊢
+    cases hg : odGet t T.mro with
+    | none => rw [hg] at hc; simp at hc
+    | some m =>
+      rw [hg] at hc hd
+      simp only [Option.getD_some] at hc hd ⊢
+      have := List.all_eq_true.1 (List.all_eq_true.1 (List.all_eq_true.1 h5 (t, m) (odGet_some_mem hg)) c hc) d hd
+      simp only [hs, Bool.true_and, Bool.or_eq_true, Bool.not_eq_true', bne_eq_false_iff_eq,
+        decide_eq_true_eq] at this
+      rcases this with this | this
+      · exact absurd this hne
+      · exact this
+
 end Glom.C13
